@@ -43,6 +43,7 @@ type ServerScenario struct {
 	Handler  int   // 0 immediate, 1 sleeps one tick then re-reads its message, 2 mutates its message then sleeps,
 	// 3 blocks until the serve loop has consumed the whole script (outlives every later read)
 	Bound int
+	Log   bool // the server is configured with its debug logger (output discarded)
 }
 
 func (s *ServerScenario) String() string {
@@ -50,7 +51,11 @@ func (s *ServerScenario) String() string {
 	for _, k := range s.Dgs {
 		ks = append(ks, sdNames[k])
 	}
-	return fmt.Sprintf("%s %s dgs=[%s] spaced=%v readerr@%d close@%d handler=%d", s.Name, fam46(s.V6), strings.Join(ks, ","), s.Spaced, s.EndErrAt, s.CloseAt, s.Handler)
+	lg := ""
+	if s.Log {
+		lg = " debug-logger"
+	}
+	return fmt.Sprintf("%s %s dgs=[%s] spaced=%v readerr@%d close@%d handler=%d%s", s.Name, fam46(s.V6), strings.Join(ks, ","), s.Spaced, s.EndErrAt, s.CloseAt, s.Handler, lg)
 }
 
 type srvInvocation struct {
@@ -231,7 +236,7 @@ func (s *ServerScenario) body(out **srvRun) func() {
 				record(serialOf4(m), peer, func() []byte { return m.ToBytes() }, func() {
 					m.UpdateOption(dhcpv4.OptGeneric(dhcpv4.GenericOptionCode(225), []byte{0xee, byte(serialOf4(m))}))
 				})
-			}, server4.WithConn(conn))
+			}, srvOpts4(conn, s.Log)...)
 			if err != nil {
 				panic(err)
 			}
@@ -241,7 +246,7 @@ func (s *ServerScenario) body(out **srvRun) func() {
 				record(serialOf6(d), peer, func() []byte { return d.ToBytes() }, func() {
 					d.AddOption(&dhcpv6.OptionGeneric{OptionCode: 65003, OptionData: []byte{0xee, byte(serialOf6(d))}})
 				})
-			}, server6.WithConn(conn))
+			}, srvOpts6(conn, s.Log)...)
 			if err != nil {
 				panic(err)
 			}
@@ -393,6 +398,22 @@ func (s *ServerScenario) check(run *srvRun, ex *vs.Exec) (string, string) {
 	return "", strings.Join(outc, ",")
 }
 
+func srvOpts4(conn net.PacketConn, lg bool) []server4.ServerOpt {
+	o := []server4.ServerOpt{server4.WithConn(conn)}
+	if lg {
+		o = append(o, quietly(server4.WithDebugLogger))
+	}
+	return o
+}
+
+func srvOpts6(conn net.PacketConn, lg bool) []server6.ServerOpt {
+	o := []server6.ServerOpt{server6.WithConn(conn)}
+	if lg {
+		o = append(o, quietly(server6.WithDebugLogger))
+	}
+	return o
+}
+
 func mutatedExpect(v6 bool, raw []byte, serial int) []byte {
 	if !v6 {
 		m, _ := dhcpv4.FromBytes(append([]byte(nil), raw...))
@@ -492,6 +513,10 @@ func c14Scenarios(tier string) []Scenario {
 						add(&ServerScenario{V6: v6, Dgs: seq, Spaced: true, EndErrAt: -1, CloseAt: t, Handler: h, Bound: bound}, "close-at")
 					}
 				}
+			}
+			// the debug logger prints every message it handles: logging must not disturb dispatch
+			if n >= 1 && n <= 2 {
+				add(&ServerScenario{V6: v6, Dgs: seq, EndErrAt: n, CloseAt: -1, Handler: 1, Bound: 1, Log: true}, "logging")
 			}
 			// nothing ends the server: it must keep serving
 			if n > 0 && n <= 2 {
